@@ -986,6 +986,8 @@ impl<'tera> VirtualMachine<'tera> {
         state.depth = parent_depth + 1;
         let mut output = Vec::with_capacity(1024);
         vm.interpret(&mut state, &mut output)?;
+        #[cfg(tera_verif)]
+        crate::verif::check_state_empty(&state, "component");
 
         Ok(String::from_utf8(output)?)
     }
@@ -1010,6 +1012,8 @@ impl<'tera> VirtualMachine<'tera> {
         include_state.filters = Some(&self.tera.filters);
         include_state.depth = state.depth + 1;
         vm.interpret(&mut include_state, output)?;
+        #[cfg(tera_verif)]
+        crate::verif::check_state_empty(&include_state, "include");
         Ok(())
     }
 
@@ -1060,6 +1064,8 @@ impl<'tera> VirtualMachine<'tera> {
         } else {
             self.interpret(&mut state, &mut output)?;
         }
+        #[cfg(tera_verif)]
+        crate::verif::check_state_empty(&state, "render");
         Ok(())
     }
 }
